@@ -6,6 +6,7 @@ package main
 
 import (
 	"fmt"
+	"math"
 	"sort"
 	"strings"
 
@@ -73,7 +74,10 @@ func valsOf(m map[string]int) string {
 
 var menu = []opDef{
 	{"Get(a)", func(s *kv, _ int) any { v, ok := s.Get("a"); return fmt.Sprint(v, ok) },
-		func(m map[string]int, _ int, res any) (bool, map[string]int) { v, ok := m["a"]; return res == fmt.Sprint(v, ok), m }},
+		func(m map[string]int, _ int, res any) (bool, map[string]int) {
+			v, ok := m["a"]
+			return res == fmt.Sprint(v, ok), m
+		}},
 	{"Has(a)", func(s *kv, _ int) any { return s.Has("a") },
 		func(m map[string]int, _ int, res any) (bool, map[string]int) { _, ok := m["a"]; return res == ok, m }},
 	{"Contains(b)", func(s *kv, _ int) any { return s.Contains("b") },
@@ -103,7 +107,11 @@ var menu = []opDef{
 	{"Delete(a)", func(s *kv, _ int) any { s.Delete("a"); return nil },
 		func(m map[string]int, _ int, _ any) (bool, map[string]int) { delete(m, "a"); return true, m }},
 	{"Delete(a,b)", func(s *kv, _ int) any { s.Delete("a", "b"); return nil },
-		func(m map[string]int, _ int, _ any) (bool, map[string]int) { delete(m, "a"); delete(m, "b"); return true, m }},
+		func(m map[string]int, _ int, _ any) (bool, map[string]int) {
+			delete(m, "a")
+			delete(m, "b")
+			return true, m
+		}},
 	{"Keys", func(s *kv, _ int) any { ks := s.Keys(); sort.Strings(ks); return strings.Join(ks, ",") },
 		func(m map[string]int, _ int, res any) (bool, map[string]int) { return res == keysOf(m), m }},
 	{"Values", func(s *kv, _ int) any { vs := s.Values(); sort.Ints(vs); return fmt.Sprint(vs) },
@@ -303,6 +311,45 @@ func ptrScenario(name string, reader string) sched.Spec {
 	return sched.Spec{Sc: sc, Quick: sched.Unbounded, Thorough: sched.Unbounded}
 }
 
+// nanScenario: keys that are not equal to themselves (NaN) — "all key choices". A plain map stores
+// one entry per Set(NaN, v), finds none of them again, and only loses them when it is cleared.
+func nanScenario() sched.Spec {
+	sc := sched.Scenario{
+		Name: "nan-keys/sequential",
+		Build: func(x *core.Exec) any {
+			s := mapz.NewSafeKV[float64, int](2)
+			x.Spawn("t1", func(t *core.Thread) {
+				nan := math.NaN()
+				step := func(what string, got, want any) bool {
+					if got != want {
+						x.FailNow("nan-keys|"+what, fmt.Sprintf("SafeKV[float64,int] with NaN keys: %s = %v, a plain map gives %v", what, got, want))
+						return false
+					}
+					return true
+				}
+				t.Op("Set", 0, func() any { s.Set(nan, 1); s.Set(nan, 2); s.Set(1.5, 3); return nil })
+				if !step("Len after Set(NaN,1), Set(NaN,2), Set(1.5,3)", s.Len(), 3) || !step("Has(NaN)", s.Has(nan), false) || !step("len(Keys())", len(s.Keys()), 3) {
+					return
+				}
+				t.Op("Delete", 0, func() any { s.Delete(nan, 1.5); return nil })
+				if !step("Len after Delete(NaN, 1.5)", s.Len(), 2) {
+					return
+				}
+				t.Op("Clear", 0, func() any { s.Clear(); return nil })
+				n := 0
+				s.Range(func(float64, int) bool { n++; return true })
+				if !step("Len after Clear", s.Len(), 0) || !step("len(Keys()) after Clear", len(s.Keys()), 0) || !step("len(Values()) after Clear", len(s.Values()), 0) || !step("entries seen by Range after Clear", n, 0) {
+					return
+				}
+				t.Op("Set", 1, func() any { s.Set(nan, 4); return nil })
+				step("Len after Clear, Set(NaN,4)", s.Len(), 1)
+			})
+			return nil
+		},
+	}
+	return sched.Spec{Sc: sc, Quick: sched.Unbounded, Thorough: sched.Unbounded}
+}
+
 func main() {
 	// golib's own map iterations (inside Keys/Values/Range/...) are built through vmap: a fixed
 	// ascending order keeps executions deterministic even when an edit makes the order matter
@@ -369,6 +416,7 @@ func main() {
 			specs = append(specs, s4)
 		}
 	}
+	specs = append(specs, nanScenario())
 	sched.Main("C12", specs,
 		[]string{
 			"small scope: all unordered pairs and all unordered triples of 18 method instances as two / three goroutines with one call each, plus eight 3-goroutine mixes with <= 2 calls each (thorough: four 4-goroutine mixes); keys {a,b}; start states {} and {a:1}",
